@@ -116,10 +116,23 @@ func startWatchdog() {
 		}
 	}
 	go func() {
+		// The limit is counted in the watchdog's own half-second ticks that fall inside one and the
+		// same run, not as a difference of wall-clock readings: when the whole virtual machine is
+		// paused (a snapshot) or the clock is stepped, a wall-clock difference jumps by minutes while
+		// the run made no progress at all (five workers of a thorough C03 reported "hangs" at once
+		// that way, none reproducible; DESIGN B.2).  A tick is one sleep that returned, so a pause
+		// costs one tick.
+		var lastRun int64
+		ticks := 0
 		for {
 			time.Sleep(500 * time.Millisecond)
 			st := wdStart.Load()
-			if st == 0 || time.Since(time.Unix(0, st)) < wdTimeout {
+			if st == 0 || st != lastRun {
+				lastRun, ticks = st, 0
+				continue
+			}
+			ticks++
+			if time.Duration(ticks)*500*time.Millisecond < wdTimeout || time.Since(time.Unix(0, st)) < wdTimeout {
 				continue
 			}
 			buf := make([]byte, 1<<20)
